@@ -60,11 +60,14 @@ def _decode_read(t):
     adj = ""
     x = strip(t)
     # x = (from_le_bytes(...) as u64) + 1  |  from_le_bytes(...)  |  buf[i]  |  buf[i] & 1 != 0 | try_into(buf[0..8])
+    widened = False
     for _ in range(4):
         if x[0] == "cast":
+            widened = True
             x = strip(x[2])
         elif x[0] == "binop" and x[1] == "Add" and const_val(x[3]) is not None:
-            adj += "+%d" % const_val(x[3])
+            # `(len16 + 1) as u64` adds in the narrow type (0xFFFF + 1 overflows), `len16 as u64 + 1` does not
+            adj += "+%d%s" % (const_val(x[3]), "(before widening)" if widened else "")
             x = strip(x[2])
         elif x[0] == "binop" and x[1] == "Ne" and const_val(x[3]) == 0:
             x = strip(x[2])
